@@ -31,10 +31,14 @@ TRUSTED = [
 ASSUMPTIONS = [
     "terms: blank nodes, IRIs, plain string literals, xsd:integer, xsd:decimal (no language tags, no doubles, "
     "no other datatypes); sort keys and aggregate arguments are variables; HAVING is one comparison of "
-    "COUNT/SUM/AVG with an integer constant",
+    "COUNT/SUM/AVG with an integer constant, or of a grouping key with an IRI constant",
     "xsd:decimal division in AVG is General Decimal Arithmetic division at 28 significant digits, "
     "round-half-even (Python's default decimal context); decimal addition is exact (values far below 28 digits)",
     "in an aggregate query the ORDER BY keys are projected variables or aliases",
+    "HAVING on a grouping key compares it with an IRI constant (= / !=); GROUP BY (e AS ?v) only with e a variable, and "
+    "its input sequence is that of { P BIND(e AS ?v) } (SPARQL 18.2.4.1)",
+    "promotion suite: float/double VALUES are compared as exact rationals of the Python floats with tolerance 1e-6 "
+    "relative to 1 + sum |v|; only the datatype of SUM/AVG is a proved statement there",
     "the order of GROUP_CONCAT, the member returned by SAMPLE and the choice among tied MIN/MAX values are "
     "left open by the specification checker",
 ]
